@@ -7,7 +7,9 @@ From QV Require Import model.Base model.Lang model.Types model.Tir model.Ceval m
    id, `this`, property reads `o.p`, subscripts `o[i]`, casts `e as T`, unary, binary (incl. && ||) and conditional operators,
    list expressions, method calls, Math.max / Math.min, qsTr, console.*, and assignments to `let` variables, writable properties
    and list elements, in any nesting (C05_accepted_expressions_are_typed, by induction over expressions through the builder's
-   state monad; at the end of this file).  For implicit this-properties, enum and type names, and statements what is proved is that each typing DECISION the builder takes coincides with the table; the
+   state monad; at the end of this file), including bare names of readable properties of the object the binding belongs to and enum
+   variants written Class.Variant / Class.Enum.Variant.  For calls of implicit this-methods and function literals, and for statements
+   as derivations, what is proved is that each typing DECISION the builder takes coincides with the table; the
    check then decides whole programs one by one (exhaustive operator table, generated programs, single-edit mutants)
    through the model/code correspondence and the specification's verdict. *)
 
@@ -75,7 +77,7 @@ Print Assumptions C05_common_type.
    e as T one of the documented casts; [e1, ...] one common element type; o.m(args) the first method of that name whose parameters
    accept the arguments; x = e a `let` variable and an assignable value, o.p = e a writable property (on an object, or on a gadget
    held in a variable), x[i] = e a list variable.  Every expression of the fragment `frag` (all expression forms except function
-   literals, and names that resolve to an implicit this-member, an enum variant or a type) that the translator accepts -- in any state reached from the one the typing context is read from -- has a
+   literals, calls of implicit this-methods, and names that resolve to nothing or to a bare type / namespace) that the translator accepts -- in any state reached from the one the typing context is read from -- has a
    derivation whose type descriptor is the descriptor of the operand the translator returns. *)
 Theorem C05_accepted_expressions_are_typed : forall E env s0, envwf (List.length (bs_locals s0)) env ->
   forall e, frag E env e = true -> forall s a s', Rel s0 s -> walk_rvalue E env e s = (V a, s') ->
@@ -145,3 +147,10 @@ Proof.
   - cbn. discriminate.
   - exists T_INT. split; reflexivity.
 Qed.
+
+(* ... enum variants and implicit this-properties: a.e == VObj.ModeB : bool and i + 1 : int (i a property of the root object) *)
+Example C05_typed_example_names :
+  map (fun e => (frag E0 [] e, match walk_rvalue E0 [] e bstate0 with (V a, _) => Some (operand_tdesc a) | _ => None end))
+      [EBinary BEq (EMember (EIdent "a") "e") (EMember (EIdent "VObj") "ModeB"); EBinary BAdd (EIdent "i") (EInt 1)] =
+  [(true, Some (DConcrete T_BOOL)); (true, Some (DConcrete T_INT))].
+Proof. vm_compute. reflexivity. Qed.
